@@ -1,6 +1,7 @@
 """F-Calls family: recursive named types, extend function with error result / context, naming; serves C01, C06, C07 (and C13)."""
 import os
 
+import vlib
 from vlib import Infra, read_ndjson
 
 MC_CFG = ("SPECIFICATION Spec\nCONSTANTS\n  Fixed = TRUE\n  WithValues = %s\nINVARIANTS A_Terminates A_SweepBound A_FailsIffMust A_WellFormed A_ErrorNeverDropped A_NoDirtyAtAppend A_Values\nCHECK_DEADLOCK FALSE\n")
@@ -31,7 +32,7 @@ def pipeline(run):
     run.validate_trace("Trace_Gen", trace, invariants=["SigConsistentAtAppend"], properties=["ExplicitFrozen"], what="calls-family programs")
     if not run.replay:
         rtrace = os.path.join(run.scratch, "rtrace.ndjson")
-        run.harness(["repotrace", "-trace", rtrace, "-work", os.path.join(run.scratch, "wrt")], timeout=3600)
+        run.harness(["repotrace", "-scenarios", os.path.join(vlib.REPO, "scenario"), "-trace", rtrace, "-work", os.path.join(run.scratch, "wrt")], timeout=3600)
         run.validate_trace("Trace_Gen", rtrace, invariants=["SigConsistentAtAppend"], properties=["ExplicitFrozen"], what="repository scenarios")
     run.fam = "calls"
     run.scen_files["calls"] = scen
